@@ -17,7 +17,7 @@ ID = "C13"
 LEVEL = "exploration"
 BUDGET = {
     "quick": {"runs": 2600, "wall": 300, "chunk": 20},
-    "thorough": {"runs": 25000, "wall": 3000, "chunk": 100},
+    "thorough": {"runs": 100000, "wall": 3400, "chunk": 100},
 }
 RULE = (
     "a run = one program instantiated twice (world, twin) and a history of 1..3 steps from {backward, "
